@@ -50,7 +50,10 @@ class NMEA2000Message:
             primary_key = f"{self.id}"
             for nmea_field in self.fields:
                 if nmea_field.part_of_primary_key:
-                    primary_key += "_" + str(nmea_field.raw_value)
+                    raw = nmea_field.raw_value
+                    # text is written with its length, so that it cannot be mistaken for an absent value
+                    # ("None") or run into the next part of the key
+                    primary_key += "_" + (f"{len(raw)}:{raw}" if isinstance(raw, str) else str(raw))
             logger.debug("primary key: %s. iso name: %s", primary_key, self.source_iso_name)
             self.hash = hashlib.md5(primary_key.encode()).hexdigest()
 
